@@ -160,6 +160,7 @@ def read_spec(names):
         return ''
     return ('#pragma CPROVER check push\n#pragma CPROVER check disable "pointer"\n#pragma CPROVER check disable "bounds"\n'
             '#pragma CPROVER check disable "pointer-overflow"\n#pragma CPROVER check disable "signed-overflow"\n#pragma CPROVER check disable "pointer-primitive"\n'
+            '#pragma CPROVER check disable "undefined-shift"\n#pragma CPROVER check disable "div-by-zero"\n#pragma CPROVER check disable "conversion"\n'
             + ''.join('#include "%s"\n' % n for n in names) + '#pragma CPROVER check pop\n')
 
 
@@ -213,7 +214,7 @@ def trace_inputs(trace):
     return vals
 
 
-def pipeline(job, work, canary=False):
+def pipeline(job, work, canary=False, only_property=None, noslice=False):
     """Returns (status, props, detail, cmds, solver_seconds, info, raw) for one variant."""
     cmds = []
     try:
@@ -245,7 +246,9 @@ def pipeline(job, work, canary=False):
         if rc != 0:
             return 'ERROR', [], 'goto-instrument failed: ' + (err or out)[-2500:], cmds, 0, info, ''
         target = gb2
-    flags = list(DEFAULT_FLAGS) + job.flags + os.environ.get('VERIF_CBMC_EXTRA', '').split()
+    flags = list(DEFAULT_FLAGS) + [f for f in job.flags if not (noslice and f == '--slice-formula')] + os.environ.get('VERIF_CBMC_EXTRA', '').split()
+    if only_property:
+        flags += ['--property', only_property]
     if job.unwind is not None:
         flags += ['--unwind', str(job.unwind)]
     if job.unwindset:
@@ -315,6 +318,16 @@ def run_job(job, workroot):
                         tail.append('%s = %s' % (stp.get('lhs'), stp.get('value', {}).get('data')))
                 d['trace_tail'] = tail[-25:]
                 r.failed.append(d)
+        if st == 'FAILURE' and job.replay and '--slice-formula' in job.flags:
+            # the sliced formula drops the witness copies: re-run the first failing obligation unsliced to obtain a full counterexample
+            need = job.replay.get('needs', [])
+            f0 = r.failed[0] if r.failed else None
+            if f0 is not None and any(not any(k == n or k.startswith(n + '.') or k.startswith(n + '[') for k in f0.get('inputs', {})) for n in need):
+                st3, props3, _, cmds3, secs3, _, _ = pipeline(job, work, canary=False, only_property=f0['property'], noslice=True)
+                r.solver_seconds += secs3
+                for p3 in props3:
+                    if p3['property'] == f0['property'] and p3['status'] != 'SUCCESS':
+                        f0['inputs'] = trace_inputs(p3.get('trace'))
         if st == 'SUCCESS':
             if info.get('warnings'):
                 allowed = getattr(job, 'allowed_nobody', ())
@@ -480,6 +493,14 @@ def replay_source(job, inputs):
         if lhs.startswith('W_P.'):
             path = re.sub(r'\[(\d+)l?\]', r'[\1]', lhs[4:])
             assign.append('    SETF(P.%s, %s);\n' % (path, val))
+        elif not lhs.startswith('W_P') and re.fullmatch(r'[WG]_\w+(\.\w+)+(\[\d+l?\])?', lhs):
+            # member of a witness struct other than the Position: W_S.board[3] -> W_S_board[3], W_S.side -> W_S_side
+            flat = lhs.replace('.', '_')
+            m = re.fullmatch(r'(\w+)\[(\d+)l?\]', flat)
+            if m:
+                arrays.setdefault(m.group(1), {})[int(m.group(2))] = val
+            else:
+                glob.append('%s %s = %s;\n' % ('long long' if val.startswith('-') else 'unsigned long long', flat, val))
         elif re.fullmatch(r'[WGg]_\w+', lhs):
             glob.append('%s %s = %s;\n' % ('double' if '.' in val else ('long long' if val.startswith('-') else 'unsigned long long'), lhs, val))
         else:
